@@ -9,7 +9,8 @@ from . import val
 REG = {}          # property id -> [Obligation]
 
 class Obligation:
-    def __init__(self, prop, oid, fn, cls, funcs, cases, quick, use, canary, bound, domain, opaque, note, timeout, max_paths, finding, tiers=None):
+    def __init__(self, prop, oid, fn, cls, funcs, cases, quick, use, canary, bound, domain, opaque, note, timeout, max_paths, finding, tiers=None, native=False):
+        self.native = native
         self.prop = prop; self.oid = oid; self.fn = fn; self.cls = cls; self.funcs = tuple(funcs)
         self.cases = cases; self.quick = quick; self.use = use; self.canary = canary; self.bound = bound
         self.domain = domain; self.opaque = tuple(opaque or ()); self.note = note; self.timeout = timeout
@@ -37,12 +38,13 @@ def _fmt(v):
     return str(v)
 
 def obligation(prop, oid, cls='L', funcs=(), cases=None, quick=None, use=None, canary=False, bound=None,
-               domain=None, opaque=None, note='', timeout=None, max_paths=None, finding=None, tiers=None):
+               domain=None, opaque=None, note='', timeout=None, max_paths=None, finding=None, tiers=None, native=False):
     """register an obligation.
     cls: 'L' lemma (loop free / concretely bounded, whole domain symbolic)   -- proved
          'I' inductive (loop invariant / fold step over unbounded input)     -- proved
          'E' exhaustive enumeration of a finite domain by native execution   -- proved
          'B' bounded stand-in (a size parameter enumerated up to `bound`)    -- never counted as proved
+    native: the body uses concrete inputs only and is executed natively (no evaluator): for class E/B corpora
     funcs: dotted names of the repository functions under contract in this obligation
     use:   names of contracts (pyvc.contracts) the evaluation may rely on instead of callee bodies
     opaque: names of spec functions that are uninterpreted in this obligation
@@ -50,7 +52,7 @@ def obligation(prop, oid, cls='L', funcs=(), cases=None, quick=None, use=None, c
     assert cls in ('L', 'I', 'E', 'B')
     def deco(fn):
         REG.setdefault(prop, []).append(Obligation(prop, oid, fn, cls, funcs, cases, quick, use, canary, bound, domain,
-                                                   opaque, note, timeout, max_paths, finding, tiers))
+                                                   opaque, note, timeout, max_paths, finding, tiers, native))
         return fn
     return deco
 
